@@ -230,3 +230,68 @@ pub fn crosscheck_docs(docs: &[&Doc]) -> Result<(), String> {
     }
     Ok(())
 }
+
+/// Give a replica a "veteran" thread: unrelated or near-miss deliveries executed (and thrown away) on its thread
+/// before its own history starts. State they leave behind - caches, pools, counters, thread-locals, statics,
+/// half-finished error paths - must not show in the replica's results.
+pub fn add_warmup(rng: &mut Rng, r: &mut crate::session::Replica, docs: &[Doc]) {
+    use crate::session::{Input, Step};
+    use crate::simreader::Plan;
+    let n = rng.range(1, 3);
+    for _ in 0..n {
+        match rng.below(3) {
+            0 if !docs.is_empty() => {
+                let mut v = rng.pick(docs).clone();
+                if v.root.depth() <= 60 {
+                    crate::dom::shift_names(rng, &mut v.root);
+                    r.warmup.push(Step { input: Input::Raw(v.ser()), plan: Plan::slice(), cfg: 0 });
+                }
+            }
+            _ => {
+                let (bytes, _, _) = crate::mutate::hostile(rng);
+                if crate::mutate::rough_depth(&bytes) > 200 {
+                    continue;
+                }
+                let mut plan = if rng.pct(50) { Plan::slice() } else { Plan::draw_transparent(rng, &bytes) };
+                if !plan.slice && rng.pct(50) {
+                    plan.fault = Plan::draw_fault(rng, &bytes);
+                    plan.io_once = rng.pct(30);
+                }
+                r.warmup.push(Step { input: Input::Raw(bytes), plan, cfg: 0 });
+            }
+        }
+    }
+}
+
+/// Environment decorations any replica can carry (encoded in its role, see session::run_session):
+/// `logging-` the process-global log level is Trace while it runs; `env-` its thread sees a populated environment;
+/// `migrating-` every one of its deliveries runs on another fresh thread.
+pub fn decorate_role(rng: &mut Rng, r: &mut crate::session::Replica) {
+    let mut pre = String::new();
+    if rng.pct(18) {
+        pre.push_str("logging-");
+    }
+    if rng.pct(18) {
+        pre.push_str("env-");
+    }
+    if rng.pct(12) && r.steps.len() > 1 {
+        pre.push_str("migrating-");
+    }
+    if !pre.is_empty() {
+        r.role = format!("{pre}{}", r.role);
+    }
+}
+
+pub fn count_decorations(s: &crate::session::Session, ctr: &mut Ctr) {
+    for r in &s.replicas {
+        if r.role.contains("logging") {
+            bump(ctr, "fault.replica_with_trace_logging");
+        }
+        if r.role.contains("env-") {
+            bump(ctr, "fault.replica_with_populated_environment");
+        }
+        if r.role.contains("migrating") {
+            bump(ctr, "fault.replica_migrating_between_threads");
+        }
+    }
+}
